@@ -120,6 +120,44 @@ pub fn run(tier: Tier, reg: &[VT]) -> Report {
 	});
 	rep.part("cut points", "every registry type x boundary value x every cut point of the encoding: strict prefixes fail", acc);
 
+	// every registry value followed by a sentinel of another type, decoded one after the other
+	let sentinels: Vec<(&VT, Value)> = vec![
+		(find_vt(reg, "u16"), Value::U(0x0201)),
+		(find_vt(reg, "bool"), Value::Bool(true)),
+		(find_vt(reg, "()"), Value::Unit),
+	];
+	let acc = par(reg, |vt, acc| {
+		let shape = (vt.shape)();
+		for v in domain::values(&shape, &b) {
+			if ref_enc(&shape, &v).is_err() {
+				continue;
+			}
+			for (svt, sv) in &sentinels {
+				let parts = [(vt, v.clone()), (*svt, sv.clone())];
+				acc.evaluations += 1;
+				acc.transitions += 4;
+				match concat(&parts) {
+					Ok(n) => {
+						acc.states += 1;
+						acc.traces += 1;
+						if n > 0 {
+							acc.nontrivial += 1;
+						}
+						acc.outcome("value+sentinel-ok");
+					},
+					Err(detail) => acc.violate(Violation {
+						property: "C14".into(),
+						sub: "C14.concat".into(),
+						key: format!("C14|{}+{}|concatenation", vt.name, svt.name),
+						detail,
+						case: json!({"sub": "C14.concat", "parts": parts.iter().map(|(t, v)| json!({"type": t.name, "value": value_to_json(v)})).collect::<Vec<_>>()}),
+					}),
+				}
+			}
+		}
+	});
+	rep.part("value + sentinel", "every registry type x boundary value followed by a u16 / bool / () sentinel in one slice: both decode back, nothing left", acc);
+
 	// concatenations over the core subset
 	let core: Vec<&VT> = reg.iter().filter(|v| v.core).collect();
 	let doms: Vec<Vec<Value>> = core
